@@ -18,11 +18,15 @@ def message(r, headers=None, req=None, minor=None, eol=None, fold=0.05, body=Non
     minor = r.choice([0, 1, 1, 1, 9, 5]) if minor is None else minor
     pick = (lambda: eol) if eol else (lambda: r.choice([b"\r\n", b"\r\n", b"\n"]))
     if req:
-        first = r.choice([b"GET", b"HEAD"]) + r.choice([b" ", b"  ", b"\t"]) + r.choice([b"/", b"/index.html?a=b", b"*"]) + b" HTTP/1.%d" % minor
+        first = r.choice([b"GET", b"HEAD"]) + r.choice([b" ", b"  ", b"\t"]) + r.choice([b"/", b"/index.html?a=b", b"*", b"http://example.com/path?q=1", b"example.com:443", b"x"]) + b" HTTP/1.%d" % minor
     else:
         first = b"HTTP/1.%d" % minor + r.choice([b" 200 OK", b" 404 Not Found", b" 200", b"\t200 OK  "])
     if headers is None:
         headers = [(case_variant(r, r.choice(NAMES)), r.choice(VALUES)) for _ in range(r.randrange(0, 9))]
+        if r.random() < 0.03:
+            # a head far beyond 8 / 16 / 64 KiB (many cookies): still a complete, well-formed message
+            big = r.choice([700, 1400, 5500])
+            headers += [(b"Cookie", b"k%d=" % i + b"v" * big) for i in range(13)]
     out = first + pick()
     parsed = []
     for n, v in headers:
